@@ -208,6 +208,7 @@ type discharger struct {
 	mu        sync.Mutex
 	n         int
 	solverT   float64
+	deadline  time.Time
 }
 
 // race runs the given solvers in parallel on file; the first unsat wins, a
@@ -252,6 +253,7 @@ func (d *discharger) one(u *unit, o *oblig, extra []string) {
 	id := d.n
 	d.mu.Unlock()
 	file := filepath.Join(d.dir, fmt.Sprintf("q%05d.smt2", id))
+	o.qfile = file
 	ctx := context.Background()
 	done := func() {
 		d.mu.Lock()
@@ -323,6 +325,10 @@ func (d *discharger) all(jobs []job) {
 			for j := range ch {
 				if j.o.goal == "true" {
 					j.o.res, j.o.solver = "unsat", "trivial"
+					continue
+				}
+				if !d.deadline.IsZero() && time.Now().After(d.deadline) {
+					j.o.res, j.o.solver = "timeout", "time budget of this tier exhausted"
 					continue
 				}
 				d.one(j.u, j.o, j.extra)
